@@ -152,7 +152,11 @@ def _result_or_exception(engine, st, fr, selfv, oid, name, args, kwargs, node):
                 yield st1, engine.typed(st1, e, ("opt", "exc"), assume=False)
             else:
                 # stdlib: `if self._exception: raise self._exception` (A-TRUTHY: exceptions truthy)
-                for st2, hasexc in engine.branch(st1, z3.Not(Val.is_none(e)), "future has exception"):
+                raises = z3.Not(Val.is_none(e))
+                if getattr(engine.cfg, "falsy_exceptions", False):
+                    from .symexec import exc_truthy
+                    raises = z3.And(raises, exc_truthy(Val.id(e)))        # stdlib: `if self._exception: raise ...` else the (None) result
+                for st2, hasexc in engine.branch(st1, raises, "future has exception"):
                     if hasexc:
                         yield st2, _Raise(Z(e, "exc"))
                     else:
